@@ -50,7 +50,7 @@ fn gen(t: Tier, _seed: u64, emit: &mut dyn FnMut(Case)) {
             emit(Case::SeqAllPairs { cid, n });
             n += 1;
         }
-        for n in wb_lengths(cid.bits(), t.pick(2, 3)) {
+        for n in wb_lengths(cid.bits(), t.pick(2, 3)).into_iter().chain(long_lengths(cid.bits()).into_iter().take(t.pick(4, 7))) {
             if n > 0 {
                 emit(Case::SeqOnePosition { cid, n });
             }
